@@ -49,6 +49,7 @@ class Ctx:
         self.case = None  # case being executed (for violate())
         self._vkeys = {}
         self.reach = {}
+        self.fp = {}
 
     # --- recording -------------------------------------------------------
     def ev(self, clause, n=1):
@@ -109,6 +110,7 @@ class Ctx:
             "harness_errors": self.harness_errors,
             "inconclusive": self.inconclusive,
             "reach": _reach_dump(),
+            "fp": _fp_dump(),
         }
 
     def merge(self, d):
@@ -134,6 +136,17 @@ class Ctx:
         self.inconclusive += d["inconclusive"]
         for k, v in (d.get("reach") or {}).items():
             self.reach.setdefault(k, set()).update(v)
+        for k, n in (d.get("fp") or {}).items():
+            self.fp[k] = self.fp.get(k, 0) + n
+
+
+def _fp_dump():
+    try:
+        from .loader import FP
+
+        return dict(FP.events)
+    except Exception:  # noqa: BLE001
+        return {}
 
 
 def _reach_dump():
